@@ -264,6 +264,15 @@ def mutate(rng, lines):
             lines.insert(0, "DSKIP(%d)" % rng.choice([16000, 16382, 16383, 16384, 65535]))
         elif k < 0.85:                                               # use before declaration / label as constant
             lines.insert(0, rng.choice(["INTEGER(N)", "DSKIP(loop)", "SETLO(R1, loop)", "INC(R1, a)", "BRR(data1)", "BR(N)", "BR(data1)"]))
+        elif k < 0.92:
+            # an operand that is a named constant holding the signed spelling of a word / a boundary value: what the
+            # checker lets through, substitution must be able to carry (seed C08g: OPCODE accepted a negative constant
+            # that the later stages then could not disassemble)
+            nm = "cst%d" % len(lines)
+            v = rng.choice(["-7931", "-24285", "-1", "-32768", "-32769", "65535", "65536", "-8698", "0xE105", "-0x1EFB"])
+            lines.insert(0, "CONSTANT(%s, %s)" % (nm, v))
+            lines.append(rng.choice(["OPCODE(%s)", "OPCODE(%s)", "SET(R1, %s)", "SETLO(R1, %s)", "INC(R1, %s)", "LOAD(R1, %s, R2)",
+                                     "FON(%s)", "SWI(%s)", "BRR(%s)"]) % nm)
         else:                                                        # far relative branch
             lines.insert(i, "LABEL(far_)")
             lines += ["NOP()"] * rng.choice([126, 127, 128, 129, 130])
